@@ -17,7 +17,7 @@ Definition pc_wf (nh nc : nat) (p : pc) : Prop :=
   | CLock k c => c < nc /\ kont_wf nc k
   | CWalk k c cur => cur < nh /\ kont_wf nc k
   | WWalk _ _ cur => cur < nh
-  | InCall h | CallFin h _ | WaitDone h => h < nh
+  | InCall h _ | CallFin h _ | WaitDone h => h < nh
   | FLock p c => c < nc /\ p < nh
   | FMark p rh c => p < nh /\ olt rh nh
   | FWalk p _ _ cur => cur < nh /\ p < nh
